@@ -39,3 +39,24 @@ func lcgBytes(n int, x uint64) []byte {
 	}
 	return b
 }
+
+func hexDecode(s string) ([]byte, error) {
+	b := make([]byte, len(s)/2)
+	for i := range b {
+		var x int
+		for j := 0; j < 2; j++ {
+			c := s[2*i+j]
+			x <<= 4
+			switch {
+			case c >= '0' && c <= '9':
+				x |= int(c - '0')
+			case c >= 'a' && c <= 'f':
+				x |= int(c-'a') + 10
+			case c >= 'A' && c <= 'F':
+				x |= int(c-'A') + 10
+			}
+		}
+		b[i] = byte(x)
+	}
+	return b, nil
+}
